@@ -105,6 +105,9 @@ func (fr *frame) call(v ssa.Value, c *ssa.CallCommon, bc string, st *state, pos 
 		eff := e.p.effects(f, map[*ssa.Function]bool{})
 		e.noteHavoc(name, eff)
 		fr.havocKeepingLocalMaps(st, eff, fr.escapingLocals(c.Args), nil)
+		if !e.p.isEffectFree(name) {
+			fr.havocInteriorTargets(st, c.Args)
+		}
 		fr.setResults(v, sig, fr.freshResults(f.Name(), sig, st))
 		return
 	case *ssa.MakeClosure:
@@ -169,7 +172,11 @@ func (fr *frame) contractCall(v ssa.Value, sp *FuncSpec, f *ssa.Function, sig *t
 	if sp.Trusted != "" {
 		e.usedTrusted[shortFunc(name)] = sp.Trusted
 	}
-	env := fr.calleeEnv(sp, f, sig, args, st, invoke)
+	allArgVals := argVals
+	if invoke {
+		allArgVals = append([]ssa.Value{nil}, argVals...)
+	}
+	env := fr.calleeEnv(sp, f, sig, args, st, invoke, allArgVals)
 	for _, c := range sp.Requires {
 		t, err := env.boolExpr(c.Text)
 		if err != nil {
@@ -216,8 +223,11 @@ func (fr *frame) contractCall(v ssa.Value, sp *FuncSpec, f *ssa.Function, sig *t
 		esc = map[string]bool{}
 	}
 	fr.havocKeepingLocalMaps(st, eff, esc, nil)
+	if !sp.Pure {
+		fr.havocInteriorTargets(st, argVals)
+	}
 	rs := fr.freshResults(shortName(name), sig, st)
-	env2 := fr.calleeEnv(sp, f, sig, args, st, invoke)
+	env2 := fr.calleeEnv(sp, f, sig, args, st, invoke, allArgVals)
 	env2.pre = pre
 	res := sig.Results()
 	for k := 0; k < res.Len(); k++ {
@@ -263,9 +273,17 @@ func shortName(name string) string {
 }
 
 // calleeEnv binds the callee's parameter names to argument terms.
-func (fr *frame) calleeEnv(sp *FuncSpec, f *ssa.Function, sig *types.Signature, args []string, st *state, invoke bool) *specEnv {
+func (fr *frame) calleeEnv(sp *FuncSpec, f *ssa.Function, sig *types.Signature, args []string, st *state, invoke bool, argVals []ssa.Value) *specEnv {
 	env := fr.baseEnv(st)
 	env.pkgPath = sp.PkgPath
+	ptrOf := func(i int) *ptrInfo {
+		if i < len(argVals) {
+			if p, ok := fr.ptrs[argVals[i]]; ok && (len(p.path) > 0 || !strings.HasPrefix(p.region, "mem:")) {
+				return p
+			}
+		}
+		return nil
+	}
 	k := 0
 	if sig.Recv() != nil {
 		n := sig.Recv().Name()
@@ -285,9 +303,9 @@ func (fr *frame) calleeEnv(sp *FuncSpec, f *ssa.Function, sig *types.Signature, 
 		k = 0
 		for i, p := range f.Params {
 			if i < len(args) {
-				env.vars[p.Name()] = binding{term: args[i], typ: p.Type()}
+				env.vars[p.Name()] = binding{term: args[i], typ: p.Type(), ptr: ptrOf(i)}
 				if i == 0 && sig.Recv() != nil {
-					env.vars["recv"] = binding{term: args[i], typ: p.Type()}
+					env.vars["recv"] = binding{term: args[i], typ: p.Type(), ptr: ptrOf(i)}
 				}
 			}
 		}
@@ -554,5 +572,30 @@ func (fr *frame) havocKeepingLocalMaps(st *state, eff *effSet, esc map[string]bo
 		e.assume(eq(app("select", e.get(st, s.domR), s.h), s.dom))
 		e.assume(eq(app("select", e.get(st, s.valR), s.h), s.val))
 		e.assume(eq(app("select", e.get(st, s.lnR), s.h), s.ln))
+	}
+}
+
+// havocInteriorTargets: a pointer into the middle of a struct/array value (or to a local) that is passed to a
+// callee may be written through by it; typed regions cannot express that aliasing, so the target is havocked.
+func (fr *frame) havocInteriorTargets(st *state, argVals []ssa.Value) {
+	e := fr.e
+	for _, a := range argVals {
+		if a == nil {
+			continue
+		}
+		p, ok := fr.ptrs[a]
+		if !ok || p.flat || (len(p.path) == 0 && strings.HasPrefix(p.region, "mem:")) {
+			continue
+		}
+		if strings.HasPrefix(p.region, "loc:") && len(p.path) == 0 {
+			continue // whole local: handled through escapingLocals
+		}
+		pt, ok := a.Type().Underlying().(*types.Pointer)
+		if !ok {
+			continue
+		}
+		fv := e.fresh("H.interior", e.st.sortOf(pt.Elem()))
+		e.assume(e.st.rangeAssume(pt.Elem(), fv, 0))
+		e.store(st, p, fv)
 	}
 }
